@@ -8,6 +8,7 @@ is removed, and a peer that never fails is never removed. Request/reply half: se
 -/
 import SeliumModel.Lemmas.PubSubHealthy
 import SeliumModel.Lemmas.ReqRepMore
+import SeliumModel.Lemmas.ReqRepCause
 
 namespace Selium.Route
 open Selium.Sink
@@ -94,8 +95,32 @@ theorem c08_failing_requestor_only_evicted (f : RFrame) (es : List (Child RFrame
     (h : (routerSend f es).1 = .refused cid g) : (routerSend f es).2.1 = es.filter (·.id ≠ cid) :=
   routerSend_refused f es cid g h
 
+/-- Only the failing peer is removed, for every history of registrations, shutdown and polls, whatever every peer's
+    sink and stream answer, in whatever order the maps are iterated: whenever the router lets go of a replier socket,
+    that socket's own stream had ended, or its own sink had failed, or it was being turned away as a second replier
+    (`causeOf`) — nothing a requestor does (failing, leaving, arriving, a reply that can no longer be routed) is among
+    the causes … -/
+theorem c08_replier_dropped_only_for_cause (history : List REvent) (n k : Nat)
+    (h : REv.v n (.dropped k) ∈ (rrExec history).trace) : ∃ e ∈ (rrExec history).trace, causeOf n e :=
+  rrExec_justified history n k h
+
+/-- … and whenever it lets go of a requestor's sink, that sink itself had answered with an error (at readiness, at a
+    flush, or to a reply handed to it): nothing the replier or another requestor does is among the causes. -/
+theorem c08_requestor_dropped_only_when_its_own_sink_failed (history : List REvent) (k : Nat)
+    (h : REv.c (.dropped k) ∈ (rrExec history).trace) : ∃ e ∈ (rrExec history).trace, causeOfC k e :=
+  rrExec_justifiedC history k h
+
+/-- drops do happen: a replier whose stream ends is let go, and so is a requestor whose sink fails at the flush -/
+def exDrops : List REvent :=
+  [.enqueue (.server { id := 0 } []), .enqueue (.client { id := 0, flushQ := [.err] } [.pending]), .poll 50 [] [], .poll 50 [] []]
+
+example : ((rrExec exDrops).trace.any fun e => match e with | .v 0 (.dropped 0) => true | _ => false) = true ∧
+    ((rrExec exDrops).trace.any fun e => match e with | .c (.dropped 0) => true | _ => false) = true := by decide +kernel
+
 end Selium.Route
 
+#print axioms Selium.Route.c08_replier_dropped_only_for_cause
+#print axioms Selium.Route.c08_requestor_dropped_only_when_its_own_sink_failed
 #print axioms Selium.Route.c08_fanout_poll_keeps_only_old
 #print axioms Selium.Route.c08_fanout_send_isolation
 #print axioms Selium.Route.c08_healthy_subscriber_survives
